@@ -4303,17 +4303,17 @@ where
             let all_vertices: Vec<_> = self.tds.vertices().map(|(_, v)| *v).collect();
             #[cfg(feature = "verif-hooks")]
             crate::verif_failpoints::hit::<InsertionError>("ins.impl.initial_simplex")?;
-            let new_tds = Self::build_initial_simplex(&all_vertices).map_err(|e| {
+            let mut new_tds = Self::build_initial_simplex(&all_vertices).map_err(|e| {
                 InsertionError::CavityFilling {
                     message: format!("Failed to build initial simplex: {e}"),
                 }
             })?;
 
-            // Replace empty TDS with simplex TDS (preserve kernel). Keep the generation counter
-            // monotone across the swap so generation-keyed views of the old TDS become stale.
-            let previous_generation = self.tds.generation();
+            // Replace empty TDS with simplex TDS (preserve kernel). The new TDS continues the
+            // generation counter of the one it replaces, so generation-keyed views of the old TDS
+            // (and of any clone of it) become stale and stay comparable.
+            new_tds.continue_generation_of(&self.tds);
             self.tds = new_tds;
-            self.tds.advance_generation_past(previous_generation);
 
             #[cfg(feature = "verif-hooks")]
             crate::verif_failpoints::hit::<InsertionError>("ins.impl.remap_after_simplex")?;
